@@ -27,7 +27,9 @@ impl TokenSet {
     }
 
     pub(crate) const fn contains(&self, kind: SyntaxKind) -> bool {
-        self.0 & mask(kind) != 0
+        // Only the first 128 kinds (tokens) can be members. Node kinds and late token kinds
+        // such as `VERSION_STRING` have larger discriminants; shifting by them overflows.
+        (kind as usize) < 128 && self.0 & mask(kind) != 0
     }
 }
 
